@@ -49,6 +49,7 @@ static long want;		/* frames still to read; -1 = unlimited */
 static int until_active;
 static double until_ts;
 static long n_frames;
+static double last_ts = -1.0;
 
 static double
 now (void)
@@ -230,6 +231,8 @@ pull_once (void)
 		format_lines (lines, sizeof (lines),
 			      sb ? (vbi_sliced *) sb->data : NULL, n);
 		++n_frames;
+		if (sb != NULL)
+			last_ts = sb->timestamp;
 		if (use_raw && rb != NULL) {
 			vbi_raw_decoder *par = vbi_capture_parameters (cap);
 			long img = (long) (par->count[0] + par->count[1])
@@ -347,10 +350,14 @@ command (char *line)
 	} else if (0 == strcmp (cmd, "readuntil")) {
 		ts = 0;
 		sscanf (line, "%*s %lf", &ts);
-		until_ts = ts;
-		until_active = 1;
-		want = -1;
 		out ("\"ev\":\"ack\",\"cmd\":\"readuntil\"");
+		if (last_ts >= ts) {
+			out ("\"ev\":\"caught_up\",\"ts\":\"%.17g\"", last_ts);
+		} else {
+			until_ts = ts;
+			until_active = 1;
+			want = -1;
+		}
 	} else if (0 == strcmp (cmd, "free")) {
 		want = -1;
 		until_active = 0;
